@@ -24,6 +24,9 @@ func newC18(tier string) run.Job {
 		{Alpha: gen.SigmaFull(), Depth: 2, Funcs: gen.FuncSuffixes(), FuncDepth: 1},
 		{Alpha: gen.SigmaMid(), Depth: 3, MinPrefix: 2},
 		{Alpha: gen.ParenFilters(), Depth: 1},
+		// an aggregate or a filter function after two steps (the value-group flag travels through the
+		// parameter chain, also when the leading $ is omitted)
+		{Alpha: gen.SigmaMid(), Depth: 1, MinPrefix: 2, Funcs: [][]string{{"cnt"}, {"g"}, {"f"}}, FuncDepth: 2},
 	}
 	spec := gen.DocSpec{MaxNodes: 4, Keys: gen.KAB, Scalars: gen.S3, MaxArr: 3}
 	if tier == "thorough" {
